@@ -29,7 +29,9 @@ TYPES = {
     "list": ("[int...]", [1, 2], [9], False),
     "class": ("K", None, None, False),
 }
-HOLDERS = ["var", "param", "result", "elem", "field", "maplookup"]
+# `narrowed`: an optional variable that a plain re-assignment made present (the checker then records the carried
+# type for it) and that `?=` may have emptied again: `get` must still check it
+HOLDERS = ["var", "param", "result", "elem", "field", "maplookup", "narrowed"]
 STATES = ["nil", "present"]
 CONSTRUCTS = ["eq_nil", "ne_nil", "nil_eq", "eq_lit", "eq_var", "var_eq", "eq_other", "ne_var",
               "get", "or_call", "or_lit", "or_var", "assign_nil", "assign_over"]
@@ -42,7 +44,9 @@ POSITIONS = ["stmt", "print", "bare", "if", "while", "opnd_left", "opnd_right"]
 # captured name is mentioned only inside the construct (apart from the `?=` target, which is printed)
 # `caller_shadow`: the construct sits in a function that captures the holder / fallback / `?=` target, and is called
 # from a driver function owning unrelated locals of the SAME names (other values): names resolve lexically
-DEPTHS = ["top", "block", "func", "escaped", "caller_shadow"]
+# `read_then_local` (`?=` only): the function first READS the outer target (so it is captured), then declares a
+# local of the same name, then does `a ?= e`: the local receives the value, the outer variable is untouched
+DEPTHS = ["top", "block", "func", "escaped", "caller_shadow", "read_then_local"]
 FORMS = ["var", "lit"]
 
 CLASS_K = ("raw", ["class K {", "  id: int", "  constructor(self, id: int) { self.id = id }", "}"])
@@ -53,6 +57,12 @@ CLASS_K = ("raw", ["class K {", "  id: int", "  constructor(self, id: int) { sel
 # the cell cannot be written at all.
 VALUE_EQ = ("eq_lit", "eq_var", "var_eq", "eq_other", "ne_var")
 APPLICABILITY = [
+    (lambda c: c["depth"] == "read_then_local" and c["construct"] not in ("assign_nil", "assign_over"),
+     "depth read_then_local is about the target of `?=`", "skip"),
+    (lambda c: c["holder"] == "narrowed" and c["construct"] != "get",
+     "the narrowed holder has the carried (non-optional) static type: only `get` is written for it", "skip"),
+    (lambda c: c["holder"] == "narrowed" and c["depth"] in ("escaped", "caller_shadow"),
+     "narrowing is recorded per block of one function", "skip"),
     (lambda c: c["form"] == "lit" and c["type"] in ("list", "class"),
      "literal operand form needs a literal of the carried type", "skip"),
     (lambda c: c["form"] == "lit" and c["holder"] != "direct", "literal operand form has no holder", "skip"),
@@ -125,6 +135,13 @@ def build(cell, positions=None):
     # ---- the holder: declarations + the expression that reads the optional
     if holder == "var":
         decls.append(("decl", "x", opt, init))
+        ref = ("var", "x")
+    elif holder == "narrowed":
+        decls.append(("decl", "x", opt, ("nil",)))
+        decls.append(("assign", "x", pv))
+        if state == "nil":
+            decls.append(("decl", "nz", opt, ("nil",)))
+            decls.append(("decl", "nf", None, ("unwrap", "x", ("var", "nz"))))
         ref = ("var", "x")
     elif holder == "param":
         ref = ("var", "p")
@@ -272,6 +289,13 @@ def build(cell, positions=None):
             inner = [("fn", "g" + i, [], None, body),
                      ("fn", "dr" + i, [], None, decoys + [("callstmt", "g" + i, []), ("print", ("lit", "driver done"))]),
                      ("callstmt", "dr" + i, [])]
+        elif depth == "read_then_local":
+            a = "a" + i
+            local_init = ov if cons == "assign_nil" else ("nil",)
+            inner = [("fn", "g" + i, [], None,
+                      [("decl", "seen" + i, None, ("eq", ("var", a), ("nil",))), ("print", ("var", "seen" + i)),
+                       ("decl", a, opt, local_init)] + body),
+                     ("callstmt", "g" + i, [])]
         elif depth == "escaped":
             inner = None
             esc_body = body
@@ -325,7 +349,7 @@ FAMILY = {"eq_nil": "nil_test", "ne_nil": "nil_test", "nil_eq": "nil_test", "eq_
           "or_lit": "or", "or_var": "or", "assign_nil": "unwrap_assign", "assign_over": "unwrap_assign"}
 # holders by run-time representation of what the construct receives: a named variable, a call result, a
 # pointer into a list / object / map (HeapPrimitive), a literal
-HOLDER_CLASS = {"var": "name", "param": "name", "result": "call", "elem": "pointer", "field": "pointer",
+HOLDER_CLASS = {"narrowed": "name", "var": "name", "param": "name", "result": "call", "elem": "pointer", "field": "pointer",
                 "maplookup": "pointer", "direct": "literal"}
 
 
@@ -748,7 +772,7 @@ def run(ctx, break_or=False):
     out.coverage.update(cov)
     out.exhaustive = not out.inconclusive and cov["rejected_unexpectedly"] == 0
     out.rule = ("catalogue = every applicable cell of type(6) x holder(6 + literal) x state(2) x construct(%d) x "
-                "position(%d) x depth(5) x form(2); the %d positions of a cell group run as one program (own names per "
+                "position(%d) x depth(6) x form(2); the %d positions of a cell group run as one program (own names per "
                 "position) when the model predicts no failure, and as one program each when it predicts a failure, the "
                 "batch disagrees, or the depth is `escaped` (one returned closure per program)%s; a cell is non-trivial when its program was accepted by the compiler and "
                 "compared with the model (distinct = distinct cells / random seeds); evaluations = executions of the "
